@@ -836,18 +836,30 @@ Fixpoint dsl_for_arr (ev : dsl_evaluator) (L : nat) (fr : dsl_frame) (st : dsl_s
            end
   end.
 
-(* for (k => v in dict): over a snapshot of the keys, values read live *)
-Fixpoint dsl_for_keys (ev : dsl_evaluator) (fr : dsl_frame) (st : dsl_store) (k v : string) (l : nat) (keys : list string) (body : dsl_expr) : dsl_out :=
+(* for (k => v in dict) / (k => v in namespace) - VMOps::For: the keys are copied into a vector under the lock when the loop
+   is entered; every iteration binds the key variable, then fetches the value of that key from the container AS IT IS NOW:
+   `dict->Get(key)` yields Empty for a key the body removed meanwhile, `ns->Get(key)` throws a script error for it (the key
+   variable is already bound then, the value variable is not).  A key added meanwhile is not in the vector: never visited. *)
+Definition dsl_for_fetch (isns : bool) (st : dsl_store) (l : nat) (key : string) : option dsl_val :=
+  match dsl_dget key (dsl_kv st l) with
+  | Some x => Some x
+  | None => if isns then None else Some DvEmpty
+  end.
+
+Fixpoint dsl_for_keys (ev : dsl_evaluator) (fr : dsl_frame) (st : dsl_store) (k v : string) (l : nat) (isns : bool) (keys : list string) (body : dsl_expr) : dsl_out :=
   match keys with
   | [] => (DrVal DvEmpty, st)
   | key :: rest =>
       let st1 := dsl_set_local fr st k (DvStr key) in
-      let cur := match dsl_dget key (dsl_kv st1 l) with Some x => x | None => DvEmpty end in
-      let st2 := dsl_set_local fr st1 v cur in
-      match ev fr st2 body with
-      | (DrVal _, st3) | (DrContinue, st3) => dsl_for_keys ev fr st3 k v l rest body
-      | (DrBreak, st3) => (DrVal DvEmpty, st3)
-      | o => o
+      match dsl_for_fetch isns st1 l key with
+      | None => dsl_err DkName st1
+      | Some cur =>
+          let st2 := dsl_set_local fr st1 v cur in
+          match ev fr st2 body with
+          | (DrVal _, st3) | (DrContinue, st3) => dsl_for_keys ev fr st3 k v l isns rest body
+          | (DrBreak, st3) => (DrVal DvEmpty, st3)
+          | o => o
+          end
       end
   end.
 
@@ -976,9 +988,12 @@ Definition dsl_do (L : nat) (ev : dsl_evaluator) (fr : dsl_frame) (st : dsl_stor
       dsl_bind (ev fr st coll) (fun cv st1 =>
         match cv with
         | DvArr l => if negb (String.eqb v "") then dsl_err DkType st1 else dsl_for_arr ev L fr st1 k l 0 body
-        | DvDict l | DvNs l =>
+        | DvDict l =>
             if String.eqb v "" then dsl_err DkType st1
-            else dsl_for_keys ev fr st1 k v l (map fst (dsl_kv st1 l)) body
+            else dsl_for_keys ev fr st1 k v l false (map fst (dsl_kv st1 l)) body
+        | DvNs l =>
+            if String.eqb v "" then dsl_err DkType st1
+            else dsl_for_keys ev fr st1 k v l true (map fst (dsl_kv st1 l)) body
         | _ => dsl_err DkType st1
         end)
   | DeReturn a => dsl_bind (ev fr st a) (fun v st1 => (DrReturn v, st1))
